@@ -96,6 +96,40 @@ func main() {
 	for _, it := range corpus {
 		one(it, "corpus")
 	}
+	// sizes around the powers the size text and the storage could care about; wide and deep lists
+	for _, n := range []int{9, 10, 11, 99, 100, 255, 256, 257, 1000, 65535, 65536} {
+		bs := make([]byte, n)
+		is := make([]int64, n)
+		fs := make([]float64, n)
+		bools := make([]bool, n)
+		for i := range bs {
+			bs[i] = byte(i * 7)
+			is[i] = int64(i) - int64(n)/2
+			fs[i] = float64(i) / 3
+			bools[i] = i%3 == 0
+		}
+		one(secs2.NewASCIIItem(string(bs)), "sized")
+		one(secs2.NewBinaryItem(bs), "sized")
+		if n <= 1000 {
+			one(secs2.NewIntItem(4, is), "sized")
+			one(secs2.NewFloatItem(4, fs), "sized")
+			one(secs2.NewBooleanItem(bools), "sized")
+			one(secs2.NewJIS8Item(string(bs)), "sized")
+			one(secs2.NewUTF8StrItem(string(bs)), "sized")
+			kids := make([]secs2.Item, n)
+			for i := range kids {
+				kids[i] = secs2.NewUintItem(1, uint64(i%256))
+			}
+			one(secs2.NewListItem(kids...), "sized")
+		}
+	}
+	for _, depth := range []int{1, 2, 9, 10, 33, 64, 65, 100} {
+		var it secs2.Item = secs2.NewBooleanItem(true)
+		for i := 0; i < depth; i++ {
+			it = secs2.NewListItem(it, secs2.NewASCIIItem("d"))
+		}
+		one(it, "deep")
+	}
 
 	for i := 0; i < c.N; i++ {
 		it := smlcase.Tree(r, cfg, 0, true)
